@@ -245,7 +245,7 @@ SLOT_NAMES = list(SLOTS) + ["init-"]
 QUICK_CORE = {
     "req": {1}, "types": {1, 3}, "constants": {1, 2}, "ftype": {1}, "tc": {1}, "objects": {1, 2},
     "par1": {1}, "par3": {1, 2},
-    "pre1": {1, 4, 5, 7, 8, 12, 16, 18, 21, 24, 28}, "pre2": {2, 4}, "pre3": {1, 4, 6},
+    "pre1": {1, 4, 5, 7, 8, 10, 12, 16, 18, 21, 24, 28}, "pre2": {2, 4}, "pre3": {1, 4, 6},
     "eff1": {2, 4, 5, 7, 8, 10, 14, 15, 19, 20}, "eff2": {1, 2}, "eff3": {1, 3, 6},
     "goal": {1, 2, 6}, "init": {1, 4}, "init-": set(), "metric": {1, 2},
 }
